@@ -1460,6 +1460,7 @@ theorem bang_unchanged_by_foreground (st : St) (s : Stmt) (hf : s.foreground = t
     case gj => rfl
     case gl => exact pids_subshell st _
     case wx => rfl
+    case ku => rfl
     case tcx => rfl
     case w => exact pids_waitAllJobs st
     case wu => exact pids_waitOps st _
